@@ -6,6 +6,10 @@
  * equal keys are merged. */
 #include "treegen.h"
 
+#ifdef ALL_SAMPLES
+#undef NSEL
+#define NSEL MAXN
+#endif
 #ifndef NSEL
 #define NSEL 3 /* nodes in the within list */
 #endif
@@ -84,7 +88,8 @@ main_c19(void)
     tsk_identity_segments_t res;
     tsk_id_t sel[NSEL];
     tsk_size_t set_sizes[2];
-    int ret, i, j, k, nsel, between, exp_pairs = 0, exp_nseg = 0;
+    int ret, i, j, k, nsel, between, exp_pairs = 0, exp_nseg = 0, store;
+    tsk_flags_t store_opt;
     double min_span, max_time, exp_total = 0;
     static const double max_times[4] = { 0.5, 1.5, 2.5, 1e300 };
     char nm[16];
@@ -92,6 +97,18 @@ main_c19(void)
     if (h_build_treeseq(&t, &ts, &T) != 0) {
         return 0;
     }
+#ifdef ALL_SAMPLES
+    /* within=None: the default set is every node flagged as a sample (whatever other flag bits it carries) */
+    nsel = 0;
+    for (i = 0; i < NN; i++) {
+        if (T.flags[i] & TSK_NODE_IS_SAMPLE) {
+            sel[nsel++] = i;
+        }
+    }
+    if (nsel < 2) {
+        sym_assume(0);
+    }
+#else
     nsel = NSEL;
     for (i = 0; i < nsel; i++) {
         sel[i] = sym_choice(sym_nm(nm, "s", i), 0, NN - 1);
@@ -101,6 +118,7 @@ main_c19(void)
             }
         }
     }
+#endif
 #ifdef FIXED_FILTERS
     between = 0;
     min_span = 0;
@@ -110,15 +128,32 @@ main_c19(void)
     min_span = (double) sym_choice("min_span", 0, 2);
     max_time = max_times[sym_choice("max_time", 0, 3)];
 #endif
+#ifdef ALL_SAMPLES
+    if (between) {
+        sym_assume(0);
+    }
+#endif
+    /* 0: pairs and segments stored; 1: pairs only (per-pair summaries, no lists); 2: nothing stored (totals only) */
+#ifdef STORE_CHOICE
+    store = sym_choice("store", 0, 2);
+#else
+    store = 0;
+#endif
+    store_opt = store == 0 ? (TSK_IBD_STORE_PAIRS | TSK_IBD_STORE_SEGMENTS) : store == 1 ? TSK_IBD_STORE_PAIRS : 0;
     if (between) {
         /* first node against the rest */
         set_sizes[0] = 1;
         set_sizes[1] = (tsk_size_t) nsel - 1;
         ret = tsk_table_collection_ibd_between(ts.tables, &res, 2, set_sizes, sel, min_span, max_time,
-            TSK_IBD_STORE_PAIRS | TSK_IBD_STORE_SEGMENTS);
+            store_opt);
     } else {
+#ifdef ALL_SAMPLES
+        ret = tsk_table_collection_ibd_within(ts.tables, &res, NULL, 0, min_span, max_time,
+            store_opt);
+#else
         ret = tsk_table_collection_ibd_within(ts.tables, &res, sel, (tsk_size_t) nsel, min_span, max_time,
-            TSK_IBD_STORE_PAIRS | TSK_IBD_STORE_SEGMENTS);
+            store_opt);
+#endif
     }
     sym_assert(ret == 0, "ibd_segments succeeds");
     ret = tsk_tree_init(&tree, &ts, 0);
@@ -169,6 +204,14 @@ main_c19(void)
             }
             nseg = k;
             ret = tsk_identity_segments_get(&res, a, b, &lst);
+            if (store == 2) {
+                sym_assert(ret == TSK_ERR_IBD_PAIRS_NOT_STORED, "pair lookup is refused when pairs are not stored");
+                for (k = 0; k < nseg; k++) {
+                    exp_total += seg_r[k] - seg_l[k];
+                }
+                exp_nseg += nseg;
+                continue;
+            }
             sym_assert(ret == 0, "pair lookup succeeds");
             if (nseg == 0) {
                 sym_assert(lst == NULL, "a pair without qualifying segments is not stored");
@@ -178,14 +221,17 @@ main_c19(void)
                 sym_assert(lst != NULL && lst->num_segments == (tsk_size_t) nseg, "number of segments of the pair");
                 if (lst != NULL) {
                     int cnt = 0;
-                    for (s = lst->head; s != NULL && cnt <= MAXSEG; s = s->next, cnt++) {
+                    if (store == 1) {
+                        sym_assert(lst->head == NULL, "no segment list when segments are not stored");
+                    }
+                    for (s = lst->head; store == 0 && s != NULL && cnt <= MAXSEG; s = s->next, cnt++) {
                         found = 0;
                         for (k = 0; k < nseg; k++) {
                             found |= s->left == seg_l[k] && s->right == seg_r[k] && s->node == seg_n[k];
                         }
                         sym_assert(found, "every stored segment is a maximal same-path interval labelled with its MRCA");
                     }
-                    sym_assert(cnt == nseg, "segment list length");
+                    sym_assert(store == 1 || cnt == nseg, "segment list length");
                     for (k = 0; k < nseg; k++) {
                         tot += seg_r[k] - seg_l[k];
                     }
@@ -196,7 +242,7 @@ main_c19(void)
             }
         }
     }
-    sym_assert(tsk_identity_segments_get_num_pairs(&res) == (tsk_size_t) exp_pairs, "num_pairs");
+    sym_assert(store == 2 || tsk_identity_segments_get_num_pairs(&res) == (tsk_size_t) exp_pairs, "num_pairs");
     sym_assert(tsk_identity_segments_get_num_segments(&res) == (tsk_size_t) exp_nseg, "num_segments");
     sym_assert(tsk_identity_segments_get_total_span(&res) == exp_total, "total_span");
     if (exp_nseg > 0) {
